@@ -22,7 +22,7 @@ const (
 
 func init() {
 	register("C32", "proof", "T14 CodecPair (byte order derived from index/shift pairs or from the encoding/binary method), T15 ConstRelation (widths via types.Sizes, slice bounds via go/constant), T6 WhoMayWrite (event ID)",
-		"Obligations (all must discharge): (1) for N in {16,32,64} and both packages, UintNToBytes fills a fresh local [N/8]byte (or make([]byte,N/8)) with exactly the package's byte order - decided either from the encoding/binary method it calls (receiver type bigEndian/littleEndian, PutUintN, full buffer, the parameter unchanged) or from the (index, shift) pairs of a manual fill - uses the buffer for nothing else and returns all of it; BytesToUintN reads the same order and width from the unchanged parameter; (2) every integer type of inter/idx that has Bytes() is a fixed-width unsigned type T whose Bytes() is bigendian.UintNToBytes of the receiver with N = 8*Sizeof(T) and no narrowing conversion, and every func([]byte) T of the package is T(bigendian.BytesToUintN(b)) with the same N; (3) every function that writes BaseEvent.id copies <same event>.epoch.Bytes() to [0:w1], <same event>.lamport.Bytes() to [w1:w1+w2] and a fixed-size array parameter to the rest, the three ranges tile the ID exactly, each copy is on every path to return, and nothing else writes the field; hash.Event.Epoch/Lamport decode exactly those ranges with the decoder of the field's own type. Lemma (trusted, encoding/binary contract + elementary): fixed-width big-endian is a bijection carrying < to byte-wise order, fixed-width little-endian is a bijection, concatenation at fixed offsets compares lexicographically. Obligations + lemma entail the statement. Not covered: hash.FakeEvent (test helper writing a fake epoch).",
+		"Obligations (all must discharge): (1) for N in {16,32,64} and both packages, UintNToBytes fills a fresh local [N/8]byte (or make([]byte,N/8)) with exactly the package's byte order - decided either from the encoding/binary method it calls (receiver type bigEndian/littleEndian, PutUintN, full buffer, the parameter unchanged) or from the (index, shift) pairs of a manual fill - uses the buffer for nothing else and returns all of it; BytesToUintN reads the same order and width from the unchanged parameter; (2) every integer type of inter/idx that has Bytes() is a fixed-width unsigned type T whose Bytes() is bigendian.UintNToBytes of the receiver with N = 8*Sizeof(T) and no narrowing conversion, and every func([]byte) T of the package is T(bigendian.BytesToUintN(b)) with the same N; (3) every function that writes BaseEvent.id copies <same event>.epoch.Bytes() to [0:w1], <same event>.lamport.Bytes() to [w1:w1+w2] and a fixed-size array parameter to the rest, the three ranges tile the ID exactly, each copy is on every path to return, and nothing else writes the field; MutableBaseEvent.Build and SetID each perform such a complete write on every path to return - in their own body or by calling a pointer-receiver helper that always does - into the event they hand out (Build: the returned event; SetID: the receiver) with their own rID parameter as the tail; hash.Event.Epoch/Lamport decode exactly those ranges with the decoder of the field's own type. Lemma (trusted, encoding/binary contract + elementary): fixed-width big-endian is a bijection carrying < to byte-wise order, fixed-width little-endian is a bijection, concatenation at fixed offsets compares lexicographically. Obligations + lemma entail the statement. Not covered: hash.FakeEvent (test helper writing a fake epoch).",
 		[]string{"encoding/binary: bigEndian/littleEndian PutUintN/UintN implement the documented byte orders", "types.Sizes of the host GOARCH (the idx types are fixed-width, so the result is the same on every architecture)"},
 		runC32)
 }
@@ -365,6 +365,9 @@ func runC32(c *core.Ctx) {
 		var layouts []layout
 		var layoutOf []string
 		nSites := 0
+		// functions decided to write the complete layout on every path: whose id they write (root
+		// variable: receiver or local) and which parameter supplies the tail
+		writers := map[*core.FuncInfo]c32idWriter{}
 		for _, f := range p.Funcs() {
 			if core.RelPkg(f.Pkg.PkgPath) != c32DagPkg {
 				continue
@@ -428,6 +431,9 @@ func runC32(c *core.Ctx) {
 			var lay layout
 			seen := map[string]int{}
 			okAll := true
+			allDom := true
+			var tailVar *types.Var
+			roots := map[*types.Var]bool{}
 			for _, k := range copies {
 				nSites++
 				role, why := c32classifyIDSrc(f, k.call.Call.Args[1], k.root, k.lo, k.hi, idLen, idxWidth)
@@ -444,7 +450,11 @@ func runC32(c *core.Ctx) {
 					lay.lamport = [2]int64{k.lo, k.hi}
 				case "tail":
 					lay.tail = [2]int64{k.lo, k.hi}
+					if se, ok := ast.Unparen(k.call.Call.Args[1]).(*ast.SliceExpr); ok {
+						tailVar = varOf(f, se.X)
+					}
 				}
+				roots[c32rawRoot(f, k.dst.X)] = true
 				// on every path to return
 				dom := true
 				for _, rp := range f.ReturnPoints() {
@@ -452,6 +462,7 @@ func runC32(c *core.Ctx) {
 						dom = false
 					}
 				}
+				allDom = allDom && dom
 				c.Check(dom, fmt.Sprintf("%s|%s copied to id[%d:%d]", who, role, k.lo, k.hi), "T14 CodecPair + T2 Dominates", k.call.Pos(),
 					fmt.Sprintf("%s bytes are copied to id[%d:%d] on every path to return", role, k.lo, k.hi), "the "+role+" part of the ID is not written on every path: the ID can keep stale bytes")
 			}
@@ -466,10 +477,50 @@ func runC32(c *core.Ctx) {
 			if tiles {
 				layouts = append(layouts, lay)
 				layoutOf = append(layoutOf, who)
+				if allDom && len(roots) == 1 && tailVar != nil {
+					for rv := range roots {
+						if rv != nil {
+							writers[f] = c32idWriter{root: rv, tail: tailVar}
+						}
+					}
+				}
 			}
 		}
-		c.ExpectAtLeast("copies into the event ID (Build, SetID)", nSites, 6)
+		// one complete writer has three copies; that the public builders reach one is decided below
+		c.ExpectAtLeast("copies into the event ID", nSites, 3)
 		c.Need(len(layouts) >= 1, "at least one ID writer with a decided layout")
+		// the two operations that give an event its ID (property statement: Build / SetID) write the
+		// complete layout on every path, themselves or through a helper that does, into the event they
+		// hand out, with their own rID parameter as the tail
+		for _, en := range []string{c32DagPkg + ".MutableBaseEvent.Build", c32DagPkg + ".MutableBaseEvent.SetID"} {
+			f := c.Fn(en)
+			w, why := c32resolveIDWriter(f, writers, 3)
+			if why == "" {
+				switch f.Obj.Name() {
+				case "SetID":
+					if w.root != f.Recv() {
+						why = "the ID is written into " + w.root.Name() + ", not into the receiver event"
+					}
+				case "Build":
+					for _, rp := range f.ReturnPoints() {
+						r := rp.Node().(*ast.ReturnStmt)
+						okR := false
+						if len(r.Results) == 1 {
+							okR = c32rawRoot(f, resolveLocal(f, r.Results[0])) == w.root
+						}
+						if !okR {
+							why = "the event returned at line " + strconv.Itoa(p.Fset.Position(r.Pos()).Line) + " is not the one whose ID was written (" + w.root.Name() + ")"
+						}
+					}
+				}
+			}
+			if why == "" && c24paramIndex(f, w.tail) < 0 {
+				why = "the ID tail does not come from the operation's rID parameter"
+			}
+			c.Check(why == "", short(en)+"|writes the whole ID layout on every path", "T2 Dominates (callee summaries)", f.Pos(),
+				"epoch|lamport|tail are written into the event's ID on every path to return (directly or through a helper that always writes them)",
+				short(en)+" can hand out an event whose ID was not (completely) rebuilt from its epoch, Lamport time and rID: "+why)
+		}
 		for i := 1; i < len(layouts); i++ {
 			c.Check(layouts[i] == layouts[0], layoutOf[i]+"|same layout as "+layoutOf[0], "T16 SiblingAgreement", token.NoPos, "both ID writers use the same layout", "two ID writers disagree on the layout")
 		}
